@@ -383,6 +383,17 @@ fn c10(ms: &ModelSnap, _model: &AutosarModel, o: &CheckOpts, out: &mut Vec<Viol>
                 v(out, "C10", "membership-not-in-parent", format!("node {i} {} is restricted to files {:?}, its parent is only in {:?}", n.name, names(ms, &n.local), names(ms, pe)));
             }
         }
+        // self-contained files: the SHORT-NAME of an identifiable element is written to every file the element is written to
+        if n.identifiable {
+            if let Some(CItem::E(c)) = n.content.first() {
+                if *c != usize::MAX {
+                    let ce = &ms.nodes[*c].eff;
+                    if !n.eff.iter().all(|f| ce.contains(f)) {
+                        v(out, "C10", "file-lacks-short-name", format!("node {i} {} is in files {:?}, its SHORT-NAME only in {:?}", n.name, names(ms, &n.eff), names(ms, ce)));
+                    }
+                }
+            }
+        }
         if nfiles > 0 && n.eff.is_empty() {
             v(out, "C10", "membership-empty", format!("node {i} {} belongs to no file", n.name));
         }
